@@ -203,6 +203,21 @@ def _callee_mutates_self(eng, obj, mname):
     return False
 
 
+def _lookup(eng, node, fr):
+    """Evaluate an expression of the loop body only to FIND the object it denotes (the thing to havoc).  This is a look-up at the
+    loop head, before the invariants are assumed, not an execution of the body: obligations it would emit (`path[len(path) - 1]`:
+    index in bounds) are not obligations of the program -- the body's own execution emits them where they belong -- and their goals
+    must not stay behind as assumptions either."""
+    no = len(eng.obligs)
+    try:
+        return eng.ev(node, fr)
+    finally:
+        dropped = eng.obligs[no:]
+        if dropped:
+            del eng.obligs[no:]
+            eng.pc[:] = [h for h in eng.pc if not any(h is ob.goal for ob in dropped)]
+
+
 def havoc_loop_state(eng, nodes, fr, spec, extra_names=()):
     names, roots = analyse_mutation(eng, nodes, fr)
     names |= set(extra_names)
@@ -219,7 +234,7 @@ def havoc_loop_state(eng, nodes, fr, spec, extra_names=()):
     for r in roots:
         try:
             if isinstance(r, tuple) and r[0] == "attr":
-                base = eng.ev(r[1], fr)
+                base = _lookup(eng, r[1], fr)
                 if isinstance(base, Obj) and r[2] in base.fields:
                     cur = base.fields[r[2]]
                     if isinstance(cur, Sym):
@@ -231,11 +246,11 @@ def havoc_loop_state(eng, nodes, fr, spec, extra_names=()):
                         havoc_value(eng, cur, done)
                 continue
             if isinstance(r, tuple) and r[0] == "call":
-                base = eng.ev(r[1], fr)
+                base = _lookup(eng, r[1], fr)
                 if isinstance(base, Obj) and _callee_mutates_self(eng, base, r[2]):
                     havoc_value(eng, base, done)
                 continue
-            v = eng.ev(r, fr)
+            v = _lookup(eng, r, fr)
         except (ProgExc, Unsupported):
             continue
         if isinstance(v, (SArr, NArr, PList, PDict, Obj, DictListRef)):
